@@ -13,7 +13,7 @@ def operands():
             ('bool', True), ('str', 'Hello, World!'), ('str_case', 'hello world'), ('str2', 'abc'), ('empty', ''),
             ('list', [1, 2]), ('list2', [1, 2, 3]), ('tuple', (1, 2)), ('dict', {'a': 1}), ('set', {1}), ('set2', {1, 2}),
             ('none', None), ('nested', [1.0, (2, 'X')]), ('nested2', [1.0004, (2, 'x')]), ('money', Money(3)),
-            ('huge', 10 ** 400),
+            ('huge', 10 ** 400), ('inf', float('inf')), ('bytes', b'abc'), ('bytes2', b'abd'),
             # same keys in another insertion order, values equal only through the tolerance / crossed values
             ('dict_ab', {'apple': 1.0001, 'pear': 2}), ('dict_ba', {'pear': 2, 'apple': 1.0}),
             ('dict_crossed', {'pear': 1.0, 'apple': 2.0001}), ('dict_text', {'k': 'Hello, World!', 'j': 2}),
@@ -94,6 +94,8 @@ def _ref_equal(a, b, delta=0.001, exact=False):
         return type(a) is type(b) and a == b if (isinstance(a, bool) and isinstance(b, bool)) else a == b
     if isinstance(a, num) and isinstance(b, num):
         if isinstance(a, float) or isinstance(b, float):
+            if a == b:
+                return True         # equal numbers are equal whatever the tolerance (inf - inf is nan)
             try:
                 return abs(a - b) < delta
             except OverflowError:
@@ -131,16 +133,21 @@ def proxy_of(value):
     sb = _SB['sb']
     if isinstance(value, Money):
         sb.run("class Money:\n    def __init__(self, amount):\n        self.amount = amount\n    def __eq__(self, o):\n        return self.amount == o.amount\n    def __lt__(self, o):\n        return self.amount < o.amount\n    def __le__(self, o):\n        return self.amount <= o.amount\n    def __gt__(self, o):\n        return self.amount > o.amount\n    def __ge__(self, o):\n        return self.amount >= o.amount\n    def __contains__(self, i):\n        return i.amount == self.amount\n    def __hash__(self):\n        return hash(self.amount)\n", filename='answer.py')
-    expr = "float('nan')" if isinstance(value, float) and value != value else repr(value)
+    expr = "float('nan')" if isinstance(value, float) and value != value else (
+        "float('inf')" if isinstance(value, float) and value == float('inf') else repr(value))
     res = sb.evaluate(expr)
     return res
 
 
-def failed_call():
-    """what call() hands back when the student's function raises"""
+def failed_call(strict=False):
+    """what call() hands back when the student's function raises (strict: an exception class that refuses attributes)"""
     proxy_of(1)
     sb = _SB['sb']
-    sb.run("def boom():\n    return 1/0\n", filename='answer.py')
+    if strict:
+        sb.run("class Strict(Exception):\n    def __setattr__(self, k, v):\n        raise TypeError('frozen')\n"
+               "def boom():\n    raise Strict('nope')\n", filename='answer.py')
+    else:
+        sb.run("def boom():\n    return 1/0\n", filename='answer.py')
     return sb.call('boom')
 
 
@@ -262,10 +269,12 @@ def bounded(arg):
     for name in list(R) + ['assert_equal', 'assert_not_equal']:
         if name.startswith('assert_length') or name in ('assert_is', 'assert_is_not'):
             continue
-        got, exc = run_assert(name, (failed_call(), 5), (False, False))
-        evaluations += 1
-        if got != 'failing':
-            record('error operand does not count as failing', name, '%s(<exception>, 5)' % name, 'failing', got, repr(exc) if exc else '')
+        for strict in (False, True):
+            got, exc = run_assert(name, (failed_call(strict), 5), (False, False))
+            evaluations += 1
+            if got != 'failing':
+                record('error operand does not count as failing', name, '%s(<exception%s>, 5)' % (
+                    name, ' of a class refusing attributes' if strict else ''), 'failing', got, repr(exc) if exc else '')
     # regular expressions: the pattern may be the proxied result of student code as well
     import re as _re
     for pattern in ('a+', '^c', 'x$', '[0-9]+'):
